@@ -61,20 +61,23 @@ class Slot:
             self.fd, self.idx = fd, 0
         self.dir = os.path.join(SCRATCH, "slot%d" % self.idx)
         self.tree = os.path.join(self.dir, "tree")
+        self.ntree = os.path.join(self.dir, "ntree")
         self.gen = os.path.join(self.dir, "gen")
         self.out = os.path.join(self.dir, "out")
         for d in (self.gen, self.out):
             shutil.rmtree(d, ignore_errors=True)
             os.makedirs(d)
 
-    def sync(self):
+    def sync(self, native=False):
         """rsync the *working tree* of /repo (so edits made before the check are what is encoded)."""
-        os.makedirs(self.tree, exist_ok=True)
+        dst = self.ntree if native else self.tree
+        os.makedirs(dst, exist_ok=True)
         cmd = ["rsync", "-a", "--delete", "--checksum"]
         for e in RSYNC_EXCLUDES:
             cmd += ["--exclude", e]
-        cmd += [REPO + "/", self.tree + "/"]
+        cmd += [REPO + "/", dst + "/"]
         subprocess.run(cmd, check=True)
+        return dst
 
     def release(self, keep=False):
         if not keep:
@@ -87,11 +90,13 @@ class Slot:
             pass
 
 
-def inject(tree, relpath, harness_file, modname, native=False, entry=None, vals_file=None):
+def inject(tree, relpath, harness_file, modname, native=False, entries=None):
     """Append a child-module declaration to the scratch copy of a source file.
 
-    Kani build:   #[cfg(kani)] #[path=...] mod <modname>;
-    native replay: unconditional, plus a #[no_mangle] entry that calls `entry`.
+    Kani build:    #[cfg(kani)] #[path=...] mod <modname>;
+    native replay: unconditional, plus a #[no_mangle] dispatcher vk_replay_entry_<modname>(idx) that loads
+                   the solver's values for entry idx and calls that harness function.
+    entries: list of (idx, fn_name, vals_file) for this module.
     """
     p = os.path.join(tree, relpath)
     if not os.path.exists(p):
@@ -100,9 +105,10 @@ def inject(tree, relpath, harness_file, modname, native=False, entry=None, vals_
     with open(p, "a") as f:
         if native:
             f.write('\n#[path = "%s"] pub mod %s;\n' % (hp, modname))
-            if entry:
-                f.write('#[no_mangle] pub extern "Rust" fn vk_replay_entry() { %s::kani::load(include!("%s")); %s::%s() }\n'
-                        % (modname, vals_file, modname, entry))
+            f.write('#[no_mangle] pub extern "Rust" fn vk_replay_entry_%s(idx: usize) { match idx {\n' % modname)
+            for (idx, fn, vf) in entries or []:
+                f.write('  %d => { %s::kani::load(include!("%s")); %s::%s() }\n' % (idx, modname, vf, modname, fn))
+            f.write('  _ => panic!("VK-REPLAY-NOENTRY") } }\n')
         else:
             f.write('\n#[cfg(kani)] #[path = "%s"] mod %s;\n' % (hp, modname))
 
@@ -244,46 +250,54 @@ def run_kani(cwd, harnesses, gen_dir, out_dir, *, package=None, jobs=12, extra=(
 _VEC = re.compile(r"^\s*vec!\[([0-9,\s]*)\],?\s*$")
 
 
-def concrete_values(cwd, harness, gen_dir, out_dir, *, package=None, extra=(), timeout_s=900,
-                    target_dir=KANI_TARGET):
-    """Ask Kani for the counterexample of one failing harness as the list of byte vectors its
-    kani::any() calls returned (the format of --concrete-playback=print)."""
+def concrete_values(cwd, harnesses, gen_dir, out_dir, *, package=None, extra=(), timeout_s=1200,
+                    target_dir=KANI_TARGET, jobs=8):
+    """Ask Kani for the counterexamples of failing harnesses as the list of byte vectors their
+    kani::any() calls returned (--concrete-playback=print).  Returns {full_name: vals or None}."""
     cmd = ["cargo", "kani", "--target-dir", target_dir, "-Z", "stubbing", "-Z", "concrete-playback",
-           "--concrete-playback=print", "--exact", "--harness", harness]
+           "--concrete-playback=print", "--exact", "-j", str(jobs), "--output-format", "terse"]
     if package:
         cmd += ["-p", package]
     cmd += list(extra)
-    logp = os.path.join(out_dir, "playback-%s.log" % hashlib.md5(harness.encode()).hexdigest()[:8])
+    for h in harnesses:
+        cmd += ["--harness", h]
+    logp = os.path.join(out_dir, "playback.log")
     with open(logp, "w") as lf:
         try:
             subprocess.run(cmd, cwd=cwd, env=kani_env(gen_dir), stdout=lf, stderr=subprocess.STDOUT,
                            timeout=timeout_s)
         except subprocess.TimeoutExpired:
             subprocess.run(["pkill", "-x", "cbmc"])
-            return None, logp
     text = open(logp, errors="replace").read()
-    # one generated test per failing check; take the first
-    m = re.search(r"let concrete_vals: Vec<Vec<u8>> = vec!\[(.*?)\n\s*\];", text, re.S)
-    if not m:
-        return None, logp
-    vals = []
-    for line in m.group(1).splitlines():
-        vm = _VEC.match(line)
-        if vm:
-            body = vm.group(1).strip()
-            vals.append([int(x) for x in body.replace(" ", "").split(",") if x != ""])
-    return vals, logp
+    out = {h: None for h in harnesses}
+    # generated tests are named kani_concrete_playback_<harness fn>_<hash>
+    for m in re.finditer(r"fn kani_concrete_playback_(\w+?)_(\d+)\(\)\s*\{\s*let concrete_vals: Vec<Vec<u8>> = vec!\[(.*?)\n\s*\];",
+                         text, re.S):
+        fn = m.group(1)
+        vals = []
+        for line in m.group(3).splitlines():
+            vm = _VEC.match(line)
+            if vm:
+                body = vm.group(1).strip()
+                vals.append([int(x) for x in body.replace(" ", "").split(",") if x != ""])
+        for h in harnesses:
+            if h.split("::")[-1] == fn and out[h] is None:
+                out[h] = vals
+    return out, logp
 
 
 # ---------------------------------------------------------------------------
 # native replay
 # ---------------------------------------------------------------------------
 RUNNER_MAIN = r'''
-extern "Rust" { fn vk_replay_entry(); }
+extern "Rust" { %(externs)s }
 #[allow(unused_imports)]
 use %(crate)s as _;
 fn main() {
-    let r = std::panic::catch_unwind(|| unsafe { vk_replay_entry() });
+    let a: Vec<String> = std::env::args().collect();
+    let m = a[1].clone();
+    let idx: usize = a[2].parse().unwrap();
+    let r = std::panic::catch_unwind(move || unsafe { match m.as_str() { %(arms)s _ => panic!("VK-REPLAY-NOMOD") } });
     match r {
         Ok(()) => { println!("VK-REPLAY: PASSED"); }
         Err(e) => {
@@ -305,9 +319,9 @@ def write_vals_file(path, vals):
         f.write("]\n")
 
 
-def native_replay(crate_dir, crate_name, work_dir, *, release=False, timeout_s=2400, features=()):
-    """Build a tiny runner binary against the (harness-injected, non-kani) crate at crate_dir and
-    run it.  Returns (verdict, message) with verdict in REPRODUCED | PASSED | UNFAITHFUL | ERROR."""
+def native_build(crate_dir, crate_name, work_dir, mods, *, release=False, timeout_s=3000):
+    """Build the runner binary against the (harness-injected, non-kani) crate at crate_dir.
+    Returns (path to binary or None, build log tail)."""
     rd = os.path.join(work_dir, "runner")
     shutil.rmtree(rd, ignore_errors=True)
     os.makedirs(os.path.join(rd, "src"))
@@ -316,27 +330,45 @@ def native_replay(crate_dir, crate_name, work_dir, *, release=False, timeout_s=2
                 '[dependencies]\n%s = { path = "%s", default-features = false }\n'
                 '\n[profile.dev]\ndebug = 0\nincremental = false\n[profile.release]\ndebug = 0\nincremental = false\n'
                 % (crate_name, crate_dir))
-    lock = os.path.join(crate_dir, "Cargo.lock")
-    if os.path.exists(lock):
-        shutil.copy(lock, os.path.join(rd, "Cargo.lock"))
+    for cand in (os.path.join(crate_dir, "Cargo.lock"), os.path.join(REPO, "Cargo.lock")):
+        if os.path.exists(cand):
+            shutil.copy(cand, os.path.join(rd, "Cargo.lock"))
+            break
+    externs = " ".join("fn vk_replay_entry_%s(idx: usize);" % m for m in mods)
+    arms = " ".join('"%s" => vk_replay_entry_%s(idx),' % (m, m) for m in mods)
     with open(os.path.join(rd, "src", "main.rs"), "w") as f:
-        f.write(RUNNER_MAIN % {"crate": crate_name.replace("-", "_")})
+        f.write(RUNNER_MAIN % {"crate": crate_name.replace("-", "_"), "externs": externs, "arms": arms})
     env = dict(os.environ)
     env["CARGO_NET_OFFLINE"] = "true"
-    env["VK_GEN_DIR"] = os.environ.get("VK_GEN_DIR_OVERRIDE", env.get("VK_GEN_DIR", ""))
-    cmd = ["cargo", "run", "--offline", "--quiet", "--target-dir", NATIVE_TARGET]
+    cmd = ["cargo", "build", "--offline", "--quiet", "--target-dir", NATIVE_TARGET]
     if release:
         cmd.append("--release")
     try:
-        p = subprocess.run(cmd, cwd=rd, env=env, stdout=subprocess.PIPE, stderr=subprocess.PIPE,
+        p = subprocess.run(cmd, cwd=rd, env=env, stdout=subprocess.PIPE, stderr=subprocess.STDOUT,
                            timeout=timeout_s, text=True, errors="replace")
     except subprocess.TimeoutExpired:
-        return "ERROR", "native replay build/run timed out"
+        return None, "native replay build timed out"
+    binp = os.path.join(NATIVE_TARGET, "release" if release else "debug", "vk_runner")
+    if p.returncode != 0 or not os.path.exists(binp):
+        return None, p.stdout[-3000:]
+    # copy out so that concurrent runs in other slots cannot overwrite it
+    dst = os.path.join(work_dir, "vk_runner_" + ("rel" if release else "dev"))
+    shutil.copy(binp, dst)
+    return dst, ""
+
+
+def native_run(binp, mod, idx, timeout_s=300):
+    """Returns (verdict, message): REPRODUCED | PASSED | UNFAITHFUL | ERROR."""
+    try:
+        p = subprocess.run([binp, mod, str(idx)], stdout=subprocess.PIPE, stderr=subprocess.PIPE,
+                           timeout=timeout_s, text=True, errors="replace")
+    except subprocess.TimeoutExpired:
+        return "ERROR", "native replay timed out"
     out = p.stdout + "\n" + p.stderr
     m = re.search(r"VK-REPLAY: (REPRODUCED|PASSED|UNFAITHFUL)(.*)", out)
     if not m:
-        # a process abort (stack overflow, alloc failure, SIGSEGV) is itself a reproduction of a crash
-        if p.returncode is not None and p.returncode < 0 or "stack overflow" in out or "memory allocation" in out:
-            return "REPRODUCED", "process aborted: rc=%s %s" % (p.returncode, out.strip()[-300:])
+        # a process abort (stack overflow, allocation failure, SIGSEGV/SIGABRT) reproduces a crash
+        if (p.returncode is not None and p.returncode < 0) or "stack overflow" in out or "memory allocation" in out:
+            return "REPRODUCED", "process aborted: rc=%s %s" % (p.returncode, out.strip()[-300:].replace("\n", " "))
         return "ERROR", out[-2000:]
     return m.group(1), m.group(2).strip()[:500]
